@@ -523,7 +523,7 @@ def replay_backpressure(case):
 
 
 # ---------------------------------------------------------------- a second ABOR while the first one is still being carried out
-async def _double(loop, kind, first_at, gap, close_delay, nblocks):
+async def _double(loop, kind, first_at, gap, close_delay, nblocks, second="ABOR"):
     ctl = harness.Ctl()
     ctl.delays = {"read": 0.2, "write": 0.2, "list.next": 0.2}
     if close_delay:
@@ -554,11 +554,11 @@ async def _double(loop, kind, first_at, gap, close_delay, nblocks):
         feeder = asyncio.ensure_future(feed())
         await asyncio.sleep(first_at)
         if gap == 0:
-            raw.send(b"ABOR\r\nABOR\r\n")
+            raw.send(("ABOR\r\n" + second + "\r\n").encode())
         else:
             raw.send("ABOR")
             await asyncio.sleep(gap)
-            raw.send("ABOR")
+            raw.send(second)
         while True:
             c, _ = await raw.reply()
             if c in ("SILENCE", "EOF"):
@@ -570,6 +570,8 @@ async def _double(loop, kind, first_at, gap, close_delay, nblocks):
         feeder.cancel()
     dw.close()
     follow = (await raw.cmd("PWD"))[0] if replies[-1] != "EOF" else None
+    if second == "QUIT":
+        follow = "257"  # the session is over by request
     raw.close()
     await asyncio.sleep(2 + (close_delay or 0))
     handles = ctl.open_handles
@@ -584,14 +586,33 @@ def double_cases(tier):
             for gap in (0, 0.0005, 0.3, 0.7) + ((1.5,) if tier == "thorough" else ()):
                 for close_delay in (0, 1.0):
                     out.append((kind, first_at, gap, close_delay, 6))
+    # the command right behind the ABOR is something else: the ABOR is answered all the same (before the session ends)
+    for kind in KINDS:
+        for first_at in (0.3, 0.9):
+            for gap in (0, 0.0005, 0.3):
+                for close_delay in (0, 1.0):
+                    for second in ("PWD", "QUIT"):
+                        out.append((kind, first_at, gap, close_delay, 6, second))
     return out
 
 
 def judge_double(case, out):
-    kind, first_at, gap, close_delay, nblocks = case
-    detail = dict(kind=kind, first_abor_after=first_at, gap_to_second_abor=gap, backend_close_delay=close_delay, **out)
+    kind, first_at, gap, close_delay, nblocks = case[:5]
+    second = case[5] if len(case) > 5 else "ABOR"
+    detail = dict(kind=kind, first_abor_after=first_at, gap_to_second_command=gap, second_command=second, backend_close_delay=close_delay, **out)
     r = out["replies"]
     done = done_code(kind)
+    if second != "ABOR":
+        # which of the two answers comes first is not judged; the ABOR must get its own (426 + 226, or 226) before the end
+        tail = {"PWD": ["257", "SILENCE"], "QUIT": ["221", "EOF"]}[second]
+        body = sorted(x for x in r if x not in ("SILENCE", "EOF"))
+        ok = [sorted(["150", "426", "226", tail[0]]), sorted(["150", done, "226", tail[0]])]
+        if body not in ok or r[-1] != tail[1]:
+            missing = "226" not in r[1:] or len(body) < 4
+            raise Violation(f"C14/double/{'ABOR_unanswered_when_followed_by_' + second if missing else 'unexpected_replies'}/{kind}", detail)
+        if out["follow"] != "257":
+            raise Violation(f"C14/double/session_not_usable_afterwards/{kind}", detail)
+        return
     # the transfer either completes (its own completion reply) or is interrupted (426 + 226); every ABOR that interrupts
     # nothing is answered by a single 226: four replies after the command in either case, then silence
     allowed = (["150", done, "226", "226", "SILENCE"], ["150", "426", "226", "226", "SILENCE"], ["150", "226", done, "226", "SILENCE"])
@@ -621,5 +642,73 @@ def replay_double(case):
     judge_double(c, simnet.run(lambda loop: _double(loop, *c)))
 
 
+# ---------------------------------------------------------------- ABOR right behind the command, handler giving up k loop iterations
+async def _yields(loop, kind, k, gap_iterations):
+    """The pre-transfer checks of the backend give up exactly k bare loop iterations (no virtual time): the ABOR that was
+    sent in the same segment as the command (or n iterations later) reaches the worker task in every phase of its start."""
+    ctl = harness.Ctl()
+    ctl.yields = {"exists": k, "is_file": k, "is_dir": k}
+    server = aioftp.Server(path_io_factory=harness.instrument(aioftp.MemoryPathIO, ctl), block_size=BLOCK, wait_future_timeout=3)
+    await server.start(HOST, PORT)
+    harness.mem_populate(server, {"/": DIR, "/g": OLD, "/f": bytes(range(3 * BLOCK)), "/d": DIR, "/d/a": b"1", "/d/b": b"2"})
+    raw = harness.Raw(HOST, PORT, patience=6)
+    await raw.connect()
+    await raw.cmd("USER anonymous")
+    await raw.cmd("EPSV")
+    dr, dw = await raw.open_data()
+    await asyncio.sleep(0.1)
+    line = {"RETR": "RETR /f", "STOR": "STOR /n", "APPE": "APPE /g", "LIST": "LIST /d", "MLSD": "MLSD /d"}[kind]
+    if gap_iterations == 0:
+        raw.send((line + "\r\nABOR\r\n").encode())
+    else:
+        raw.send(line)
+        for _ in range(gap_iterations):
+            await asyncio.sleep(0)
+        raw.send("ABOR")
+    replies = []
+    while len(replies) < 5:
+        c, _ = await raw.reply()
+        replies.append(c)
+        if c in ("EOF", "SILENCE"):
+            break
+    follow = (await raw.cmd("PWD"))[0] if replies[-1] != "EOF" else None
+    raw.close()
+    dw.close()
+    await asyncio.wait_for(server.close(), 1000)
+    return dict(replies=replies, follow=follow)
+
+
+def yields_cases(tier):
+    return [(kind, k, gap) for kind in KINDS for k in range(0, 7 if tier == "quick" else 12) for gap in ((0, 1, 2, 3) if tier == "quick" else range(0, 8))]
+
+
+def judge_yields(case, out):
+    kind, k, gap = case
+    detail = dict(kind=kind, loop_iterations_given_up_by_each_pre_transfer_check=k, abor_sent_n_iterations_after_command=gap, **out)
+    D = done_code(kind)
+    allowed = (["150", "426", "226", "SILENCE"], ["150", D, "226", "SILENCE"])
+    if out["replies"] not in [list(a) for a in allowed]:
+        sym = "session_closed" if out["replies"][-1] == "EOF" else ("abor_unanswered" if len(out["replies"]) < 4 else "reply_sequence_" + "+".join(out["replies"][:4]))
+        raise Violation(f"C14/yields/{sym}/{kind}", detail)
+    if out["follow"] != "257":
+        raise Violation(f"C14/yields/session_not_usable_afterwards/{kind}", detail)
+
+
+def part_yields(ctx):
+    for case in yields_cases(ctx.tier)[ctx.shard::ctx.nshards]:
+        out = simnet.run(lambda loop: _yields(loop, *case))
+        ctx.count(case, "426" in out["replies"] or "EOF" in out["replies"], sample=dict(kind=case[0], yields=case[1], gap=case[2], replies=out["replies"]),
+                  classes=["yields_" + case[0]])
+        try:
+            judge_yields(case, out)
+        except Violation as v:
+            ctx.fail(v.sig, dict(kind="yields", case=list(case)), v.detail)
+
+
+def replay_yields(case):
+    c = tuple(case["case"])
+    judge_yields(c, simnet.run(lambda loop: _yields(loop, *c)))
+
+
 def plan(tier):
-    return [("grid", 16), ("sweep", 8), ("tapes", 8), ("backpressure", 6), ("double", 8)]
+    return [("grid", 16), ("sweep", 8), ("tapes", 8), ("backpressure", 6), ("double", 8), ("yields", 8)]
